@@ -201,13 +201,16 @@ CHECKS['C11'] = {
 
 CHECKS['C10'] = {
     'level': 'other',
-    'technique': 'partial: bounded numeric contract of the real crop engine on a finite grid of baselines (0.75 px tolerance) + structural/arithmetical obligation on the interpolant probe range (when contracts/cropping.py is present)',
-    'text': ('BOUNDED numeric: coordinate map of the configured height, width = length x scale, columns uniform from first to last baseline point, rows linear from ascender to '
+    'technique': ('hybrid: deductive proof (own VC generator + z3) of reverse_line_mapping (arc-length inverse, all tables and samples) + bounded numeric contract of the real '
+                  'crop engine on a finite grid of baselines (0.75 px tolerance, column spacing within 5%)'),
+    'text': ('PROVED for all inputs: reverse_line_mapping returns the piecewise-linear inverse of the strictly increasing arc-length table at every sample (index safety, no '
+             'division by zero, termination of the search), so uniformly spaced samples give columns uniform ALONG the baseline.  '
+             'BOUNDED numeric: coordinate map of the configured height, width = length x scale, columns uniform from first to last baseline point, rows linear from ascender to '
              'descender and perpendicular to the baseline, fast path == general path, shift equivariance, no blank fallback for non-degenerate baselines in orders 0/1/2; degenerate '
-             'lines fall back to a blank image of the configured height, never an error - on integer baselines of 2..5 points x steps x slopes (within 60 degrees) x offsets x size variants.'),
-    'note': 'Trusted: cv2.remap, scipy/numpy interpolation (A6); continuous geometry beyond the grid is not decided; trigonometry is not reasoned about.',
+             'lines fall back to a blank image of the configured height, never an error - on integer baselines of 2..5 points x steps x slopes (within 60 degrees) x offsets x size '
+             'variants, plus an arc and an S-shaped baseline.'),
+    'note': 'Trusted: pyvc; numba object-mode jit; cv2.remap, scipy/numpy interpolation (A6); continuous geometry beyond the grid is not decided; trigonometry is not reasoned about.',
 }
-
 CHECKS['C18'] = {
     'level': 'other',
     'technique': 'partial: deductive proof of rotate_layout against the np.rot90 axiom (z3) + bounded numeric contract of parse()/detect() on synthetic ridge maps with a stub network',
